@@ -49,6 +49,7 @@ def fragments(m, a, b):
 
 
 SRC = {}
+UPSTREAM = {"mislabelled": 0, "examples": []}
 DONE = {"two": 0, "one": 0}
 
 
@@ -77,7 +78,41 @@ def compounds_for(m, keep_sets):
             "smiles": [Chem.MolToSmiles(p) if p is not None else None for p in parts],
             "boundary_atoms_products": bounds, "nearest_neighbor_products": neigh,
             "mcs_results": [Chem.MolToSmarts(q) for q in mcs]}
-    return build_compounds(data), data
+    # The boundary index reported by the fragment analysis refers to the atom order of the part molecule before
+    # FindGraphDict re-canonicalises it; when the radical/aromaticity repair changed the canonical order the index points
+    # at another atom of the emitted SMILES (observed for organometallic '[CH2][Mg+]' cuts and [nH] rings).  That is an
+    # upstream defect outside C09 (merge is handed a wrong attachment atom and bonds there faithfully), so the
+    # attachment atom is determined independently here and the merge layer is exercised with the true one.
+    if not (len(parts) == len(bounds) == len(neigh) == len(keep_sets)):
+        return None  # rejected by build_compounds (ValueError contained by MCSBasedMethod.run): no merge happens
+    for i, ks in enumerate(keep_sets):
+        if data["smiles"][i] is None or not bounds[i] or len(bounds[i]) != 1:
+            continue
+        rest = set(range(m.GetNumAtoms())) - set(ks)
+        cut_atom = [x for x in rest if any(n.GetIdx() in ks for n in m.GetAtomWithIdx(x).GetNeighbors())]
+        q = Chem.MolFromSmiles(data["smiles"][i])
+        if q is None or len(cut_atom) != 1 or q.GetNumAtoms() != len(rest):
+            return None
+        mts = [mt for mt in m.GetSubstructMatches(q, uniquify=False, maxMatches=2000) if set(mt) == rest]
+        # a molecule used as query ignores hydrogen counts: prefer the embeddings that also agree in H (tautomeric [nH])
+        exact = [mt for mt in mts if all(q.GetAtomWithIdx(j).GetTotalNumHs() == m.GetAtomWithIdx(x).GetTotalNumHs()
+                                         for j, x in enumerate(mt) if x != cut_atom[0])]
+        js = {mt.index(cut_atom[0]) for mt in (exact or mts)}
+        if not js:
+            return None
+        sym, idx = list(bounds[i][0].items())[0]
+        if idx not in js:
+            UPSTREAM["mislabelled"] += 1
+            if len(UPSTREAM["examples"]) < 3:
+                UPSTREAM["examples"].append((SRC[id(m)], data["smiles"][i], idx, sorted(js)))
+            bounds[i] = [{sym: min(js)}]
+    try:
+        cset = build_compounds(data)
+    except ValueError:
+        # build_compounds rejects a fragment analysis whose lists disagree in length (a substructure match that failed
+        # for one of the copies); MCSBasedMethod.run contains that error, so no merge happens and C09 says nothing
+        return None
+    return cset, data
 
 
 def judge(smiles, a, b):
@@ -193,5 +228,9 @@ def check(run):
     run.bounded("cut-and-merge", "%d molecules, %d (molecule, acyclic single bond) pairs, two-fragment merge and both single-fragment completions"
                 % (len(mols), pairs), cases, pairs, fails[:8], False, samples)
     run.notes.append("merges actually performed: %d two-fragment, %d single-fragment (ambiguous cuts and failed fragment analyses are skipped)" % (DONE["two"], DONE["one"]))
+    if UPSTREAM["mislabelled"]:
+        run.notes.append("upstream of C09: the fragment analysis reported the attachment atom at a wrong index of the emitted SMILES for %d parts "
+                         "(index computed before re-canonicalisation, e.g. %r); merge was exercised with the independently determined atom"
+                         % (UPSTREAM["mislabelled"], UPSTREAM["examples"][:2]))
     if DONE["two"] < 10 or DONE["one"] < 10:
         run.undecided("C09/bounded:cut-and-merge", "too few merges were exercised (%r)" % (DONE,))
